@@ -40,17 +40,19 @@ theorem pushed_int_value (t : IntTy) (n : Int)
 theorem char_cast_roundtrip (c : Nat) (h : validChar c = true) : charOfInt (c : Int) = some c :=
   char_roundtrip c h
 
-/-- Every normal `f32` (all 2·254·2²³ of them) survives `as f64` / `as f32` bit for bit. -/
-theorem f32_normal_roundtrip (b : Nat) (hb : b < 4294967296)
-    (he : 1 ≤ b / 8388608 % 256 ∧ b / 8388608 % 256 ≤ 254) : f64to32 (f32to64 b) = b :=
-  f32_roundtrip_normal b hb he
+/-- Every `f32` that is not a NaN — normal, subnormal, ±0, ±∞ — survives `as f64` / `as f32` bit for
+    bit.  (NaNs: quiet ones survive too, signalling ones are quieted; decided on examples below and
+    checked by the correspondence.) -/
+theorem f32_roundtrip (b : Nat) (hb : b < 4294967296) (hn : isNaN32 b = false) :
+    f64to32 (f32to64 b) = b :=
+  f32_roundtrip_nonnan b hb hn
 
 /-- **Round trip, every type code of the model**: what `from_value` reads from a pushed value is the
     original.  `WT c v` says that `v` is a value of the Rust type `c`: integers in the range of their
     width, chars scalar values, struct field names as declared and distinct, map keys strictly
     increasing (a `BTreeMap`), and — the one semantic side condition — an `f32` bit pattern that survives
-    `as f64 as f32` (every pattern except signalling NaNs; proved universally for the normal numbers in
-    `f32_normal_roundtrip`, decided for the other classes in the examples).  Covers named-field structs
+    `as f64 as f32` (every pattern except signalling NaNs; proved universally for all non-NaN patterns
+    in `f32_roundtrip`, decided for NaNs in the examples).  Covers named-field structs
     and struct variants (read back by field name) and `BTreeMap<String, _>` (rebuilt from the gluon
     search tree), nested arbitrarily. -/
 theorem get_push (c : TCode) (v : Val) (h : WT c v = true) : get c (push v) = some v :=
